@@ -20,15 +20,16 @@ import (
 
 // Env is a function analysed in a calling context: parameters are substituted by the caller's terms.
 type Env struct {
-	P      *Prog
-	Fn     *ssa.Function
-	Parent *Env
-	Call   ssa.CallInstruction
-	ctx    string
-	depth  int
-	ef     map[edge][]Fact
-	touch  *touchSet // collects SSA values visited while building terms (for staleness checks)
-	inPhi  map[*ssa.Phi]bool
+	P        *Prog
+	Fn       *ssa.Function
+	Parent   *Env
+	Call     ssa.CallInstruction
+	ctx      string
+	depth    int
+	ef       map[edge][]Fact
+	touch    *touchSet // collects SSA values visited while building terms (for staleness checks)
+	inLenPhi map[*ssa.Phi]bool
+	inPhi    map[*ssa.Phi]bool
 	// for the body of a function literal: the MakeClosure that binds its free variables (Parent = env of the enclosing function)
 	closure *ssa.MakeClosure
 }
@@ -1252,6 +1253,14 @@ func (e *Env) sliceBase(v ssa.Value, depth int) (*Env, ssa.Value, LE, bool) {
 				return sub.sliceBase(rv, depth+1)
 			}
 		}
+	case *ssa.Phi:
+		// a list consumed front to back in a loop: rest = φ(init, rest[c:]) is init[c·k:] in iteration k
+		if init, adv, ok := e.sliceInduction(x); ok {
+			if be, base, o2, ok := e.sliceBase(init, depth+1); ok {
+				return be, base, o2.plus(adv), true
+			}
+			return e, init, adv, true
+		}
 	case *ssa.Slice:
 		if _, isSlice := x.X.Type().Underlying().(*types.Slice); !isSlice {
 			return nil, nil, LE{}, false
@@ -1269,6 +1278,57 @@ func (e *Env) sliceBase(v ssa.Value, depth int) (*Env, ssa.Value, LE, bool) {
 		return e, x.X, off, true
 	}
 	return nil, nil, LE{}, false
+}
+
+// sliceInduction: phi is a loop-carried slice φ(init, phi[c:]) with a constant c, in a loop header that also carries an
+// integer counter φ(k0, counter+1): in the iteration where the counter is t the slice is init[c·(t−k0):]. Returns init and
+// the advance c·(t−k0).
+func (e *Env) sliceInduction(phi *ssa.Phi) (ssa.Value, LE, bool) {
+	if len(phi.Edges) != 2 {
+		return nil, LE{}, false
+	}
+	if _, isSlice := phi.Type().Underlying().(*types.Slice); !isSlice {
+		return nil, LE{}, false
+	}
+	latch := -1
+	var c int64
+	for i, ed := range phi.Edges {
+		if sl, ok := ed.(*ssa.Slice); ok && sl.X == ssa.Value(phi) && sl.High == nil && sl.Max == nil && sl.Low != nil {
+			if k, ok := constInt(sl.Low); ok && k >= 0 {
+				latch, c = i, k
+			}
+		}
+	}
+	if latch < 0 {
+		return nil, LE{}, false
+	}
+	init := phi.Edges[1-latch]
+	if init == ssa.Value(phi) {
+		return nil, LE{}, false
+	}
+	for _, in := range phi.Block().Instrs {
+		cnt, ok := in.(*ssa.Phi)
+		if !ok {
+			break
+		}
+		if cnt == phi || !isInteger(cnt.Type()) || len(cnt.Edges) != 2 {
+			continue
+		}
+		k0, ok := constInt(cnt.Edges[1-latch])
+		if !ok {
+			continue
+		}
+		bo, ok := cnt.Edges[latch].(*ssa.BinOp)
+		if !ok || bo.Op != token.ADD || bo.X != ssa.Value(cnt) {
+			continue
+		}
+		if one, ok := constInt(bo.Y); !ok || one != 1 {
+			continue
+		}
+		adv := e.LE(cnt).addK(-k0).scale(c)
+		return init, adv, true
+	}
+	return nil, LE{}, false
 }
 
 // innerHigh: the upper bound (in the base slice's indices) of an enclosing re-slice, as a string; "" if open.
@@ -1625,6 +1685,17 @@ func (e *Env) lenOf(x ssa.Value) LE {
 	case *ssa.ChangeType:
 		return e.lenOf(v.X)
 	case *ssa.Phi:
+		if e.inLenPhi == nil {
+			e.inLenPhi = map[*ssa.Phi]bool{}
+		}
+		if e.inLenPhi[v] {
+			break
+		}
+		e.inLenPhi[v] = true
+		defer delete(e.inLenPhi, v)
+		if init, adv, ok := e.sliceInduction(v); ok {
+			return e.lenOf(init).minus(adv)
+		}
 		t := e.Term(v)
 		if !strings.Contains(t, "#"+v.Name()+"@") {
 			for _, ed := range v.Edges {
